@@ -36,6 +36,31 @@ OPS = {'Request': 1, 'Response': 2, 'Rst': 3, 'Shutdown': 4, 'Rw': 5, 'CreditUpd
 OP_OF = {'connect': 1, 'accept': 2, 'send': 5, 'credit_update': 6, 'shutdown': 4, 'shutdown_with_hints': 4, 'force_close': 3}
 M32 = 2**32
 
+def v13_accounting_on_table_entry(F, R):
+    """The driver-level operations update a connection's accounting (bytes sent, "credit request pending") through the
+    `&mut ConnectionInfo` they are given: the connection manager hands them the `info` of the connection in its table - not a
+    copy whose updates are lost on the paths that do not write it back (a refused send then asks for credit again on every retry)."""
+    MGR_ = 'device::socket::connectionmanager::VsockConnectionManager'
+    n = 0
+    for b in sorted(F.bodies.values(), key=lambda x: x['id']):
+        if b.get('impl_adt') != MGR_ or not F.handwritten(b) or b['kind'] not in ('AssocFn', 'Closure'):
+            continue
+        sg = supergraph(F, b['id'], tag='flat', max_depth=0)
+        S = sg.sym
+        for c in sg.calls(lambda d: 'device::socket::vsock::VirtIOSocket' in d.get('fn', '')):
+            for a, ty in zip(c.d['args'], c.d.get('arg_tys', [])):
+                if not (ty.startswith('&mut ') and ty.endswith('ConnectionInfo')):
+                    continue
+                n += 1
+                t = S.operand(c.id, a)
+                on_entry = any(x[0] == 'loc' and any(pp[0] == 'f' and pp[1] == 'info' for pp in x[2]) for x in subterms(t))     # the reference itself, not a copy made from it
+                R.check(on_entry, 'V13', '%s:%s:accounting-on-table-entry' % (b['id'], c.d['fn'].rsplit('::', 1)[1]), site(sg, c),
+                        'the driver operation updates the table entry\'s own connection info',
+                        '%s passes %s to %s, not the `info` of the connection in the table: accounting updates made on an error path (credit request '
+                        'pending) or before a later failure are lost' % (b['name'], fmt(t)[:60], c.d['fn'].rsplit('::', 1)[1]))
+    R.count('accounting_calls', n)
+
+
 
 def run(F, R):
     M = model(F)
@@ -62,6 +87,7 @@ def run(F, R):
     # V12: lengths and ids of completions come from the used-ring slot of the trusted index; a refused poll consumes nothing (C03.E1 / E2)
     from .C03 import pop_rule
     pop_rule(F, R, 'V12')
+    v13_accounting_on_table_entry(F, R)
     v5_fwd(F, R)
     v6_ring(F, R)
     v6b_is_empty(F, R)
